@@ -7,7 +7,7 @@ from vlib import budget
 import struct
 
 from vlib import gen, refenc
-from vlib.world import World, KEEPALIVE
+from vlib.world import reactor, World, KEEPALIVE
 
 PROPERTY = 'C19'
 LEVEL = 'exploration'
@@ -165,7 +165,7 @@ def small_ops():
 def random_op(rng):
     r = rng.random()
     if r < 0.08:
-        return dict(kind='DROP', how=rng.choice(['peer-close', 'peer-notification', 'hold-expiry', 'stop-start']))
+        return dict(kind='DROP', how=rng.choice(['peer-close', 'peer-notification', 'hold-expiry', 'stop-start', 'burst-then-stop']))
     if r < 0.6:
         op = dict(kind='ipv4')
         x = rng.random()
@@ -247,6 +247,20 @@ class Runner(object):
                 w.deliver(refenc.notification(6, 2), self.tr)           # the agent closes the connection itself
             elif how == 'hold-expiry':
                 w.advance(95)
+            elif how == 'burst-then-stop':
+                # one segment with many announcements, and the operator's stop before the reactor has finished that instant:
+                # whatever part of the segment was put off must not be applied to a table that the drop has emptied
+                burst = b''.join(refenc.update({1: 0, 2: [[2, [65002]]], 3: '10.0.0.2'}, ['10.%d.%d.0/24' % (j // 256, j % 256)], None, asn4=True) for j in range(130))
+                w.lazy = True
+                w.deliver(burst, self.tr)
+                w.lazy = False
+                if self.stats['drops'] % 2:
+                    w.stop()
+                    w.start()
+                else:
+                    # ... or the peer's close, seen by the reactor after its next pass over what is queued and due
+                    reactor.run_pass()
+                    w.peer_close(self.tr, clean=True)
             else:
                 w.stop()
                 w.start()
